@@ -2,10 +2,10 @@
    A script is a finite response table; the Go scripted node implements the same lookup. *)
 From Flyt Require Import Base.
 
-Inductive phase := PhPrep | PhExec | PhFb | PhPost | PhWait.
+Inductive phase := PhPrep | PhExec | PhFb | PhPost | PhWait | PhPark.
 Definition phase_eqb (a b : phase) : bool :=
   match a, b with
-  | PhPrep, PhPrep | PhExec, PhExec | PhFb, PhFb | PhPost, PhPost | PhWait, PhWait => true
+  | PhPrep, PhPrep | PhExec, PhExec | PhFb, PhFb | PhPost, PhPost | PhWait, PhWait | PhPark, PhPark => true
   | _, _ => false
   end.
 
@@ -27,6 +27,7 @@ Definition call_key (c : call) : skey :=
   | CPost n _ _ _ => (n, PhPost, 0)
   | CBPost n _ _ _ => (n, PhPost, 0)
   | CWait n i _ => (n, PhWait, i)
+  | CPark n _ => (n, PhPark, 0)
   end.
 
 (* an entry with item 0 matches every argument *)
